@@ -137,6 +137,10 @@ def gen_cases(rng, tier):
         assert c['hist'][-2:] == ['t300', 'q']
         cases.append({'id': 'c01-v2-%d' % i, 'cfg': c['cfg'], 'hist': c['hist'][:-2] + ['t%d' % DRAIN, 'q', 't50'], 'sub': 'ksim',
                       'tags': {'mode': 'chords-v2'}})
+    for i in range(16 if tier == 'quick' else 400):
+        c = c09.v2_two_chords_case(rng, i)
+        cases.append({'id': 'c01-v2two-%d' % i, 'cfg': c['cfg'], 'hist': c['hist'][:-2] + ['t%d' % DRAIN, 'q', 't50'], 'sub': 'ksim',
+                      'tags': {'mode': 'chords-v2-two-held'}})
     for i in range(40 if tier == 'quick' else 1000):
         c = c20.make_case(rng, i, tier)
         assert c['hist'][-1] == 'q'
